@@ -1,6 +1,6 @@
 """C06  position-sensitive reductions respect global positions across chunk boundaries.
 
-E1: all value tuples over {1,3,NaN}^n (ties and NaNs on both sides of every boundary) x all label tuples
+E1: all value tuples over {-2,1,NaN}^n (ties and NaNs on both sides of every boundary) x all label tuples
 over {0,1,missing}^n x every chunking (composition of n) x method x split_every (every tree depth the
 block count allows) x {arg*, first/last family} x float64/int64, plus a 2-D variant whose batch axis is
 chunked (the broadcast index of the arg-reduction preprocessing)."""
@@ -19,7 +19,7 @@ LEVEL = "model_checking"
 ENGINE = "E1"
 RULE = (
     "state = (reduction, dtype, label tuple over {0,1,NaN}^n, chunking composition, method, split_every, batch blocks, "
-    "value tuple over {1,3,NaN}^n (ints: {1,3,2})); every state is built as a real dask graph and computed under "
+    "value tuple over {-2,1,NaN}^n (ints: {-2,0,1})); every state is built as a real dask graph and computed under "
     "dask.config.set(split_every=k). Oracle: index in the WHOLE axis of the first occurrence of the group's extreme "
     "(np.argmax on the member columns mapped to global positions), resp. first/last (non-NaN) member in global order. "
     "Non-trivial = >=2 chunks and some group has members (or ties of its extreme) in >=2 chunks."
@@ -33,8 +33,8 @@ ASSUMPTIONS = [
 
 FUNCS = ["argmax", "argmin", "nanargmax", "nanargmin", "first", "last", "nanfirst", "nanlast"]
 LABELS = (0.0, 1.0, float("nan"))
-AF = (1.0, 3.0, float("nan"))
-AI = (1, 3, 2)
+AF = (-2.0, 1.0, float("nan"))  # negative and zero so that a fill of 0 is not neutral; repeated values give ties
+AI = (-2, 0, 1)
 
 
 def bounds(tier, seed):
@@ -61,7 +61,14 @@ def shards(tier, seed):
             nparts = {9: 4, 10: 8, 11: 16}[n]
             for part in range(nparts):
                 out.append(dict(func=func, dtype=dtype, method="many", n=n, part=part, nparts=nparts, many=True))
-    out.sort(key=lambda s: -s["n"] if not s.get("many") else -100)
+    # sparse-incidence leg: k blocks (block ids >= 8 exist), L labels each living in at most two blocks; the planner merges
+    # such cohorts and hands their block sets around in set-iteration order
+    for func, dtype in (("argmax", "float64"), ("nanlast", "int64"), ("nanfirst", "float64")):
+        for k in (9,) if tier == "quick" else (9, 10, 11):
+            nparts = {9: 8, 10: 12, 11: 16}[k]
+            for part in range(nparts):
+                out.append(dict(func=func, dtype=dtype, method="sparse", n=k, part=part, nparts=nparts, sparse=True))
+    out.sort(key=lambda s: -s["n"] if not (s.get("many") or s.get("sparse")) else -100)
     return out
 
 
@@ -154,11 +161,34 @@ def run_many(res, shard):
     return res
 
 
+def run_sparse(res, shard):
+    func, dtype, k = shard["func"], shard["dtype"], shard["n"]
+    choices = [(i,) for i in range(k)] + list(itertools.combinations(range(k), 2))
+    combos = [c for i, c in enumerate(itertools.product(choices, repeat=2)) if i % shard["nparts"] == shard["part"]]
+    for sets in combos:
+        labs, chunks = [], []
+        for b in range(k):
+            here = [float(lab) for lab, st in enumerate(sets) if b in st] or [float("nan")]
+            labs.extend(here)
+            chunks.append(len(here))
+        n = len(labs)
+        rows = [[3] * n, list(range(n)), list(range(n, 0, -1))]
+        V = np.array(rows, dtype=dtype)
+        for method in ("cohorts", None):
+            check_point(res, func, dtype, tuple(labs), tuple(chunks), method, None, 1, V)
+        res.nontrivial += 2 * V.shape[0]
+        res.classes[f"sparse-incidence-blocks={k}"] += 1
+    res.sample(dict(leg="sparse-incidence", func=func, blocks=k, label_block_sets=[list(s) for s in combos[len(combos) // 2]]))
+    return res
+
+
 def run_shard(shard):
     e1.reset_flox_caches()
     res = Result()
     if shard.get("many"):
         return run_many(res, shard)
+    if shard.get("sparse"):
+        return run_sparse(res, shard)
     func, dtype, method, n = shard["func"], shard["dtype"], shard["method"], shard["n"]
     V = space.value_matrix(AF if dtype == "float64" else AI, n, dtype)
     pairs = [(lt, ch) for lt in itertools.product(LABELS, repeat=n) for ch in space.compositions(n)]
@@ -192,6 +222,9 @@ def replay(payload):
     c = payload["case"]
     lt = tuple(unjson_float(c["labels"]))
     V = space.value_matrix(AF if c["dtype"] == "float64" else AI, len(lt), c["dtype"]) if len(lt) <= 7 else many_rows(len(lt), c["dtype"])
+    if len(lt) > 7 and len(c["chunks"]) != len(lt):
+        n = len(lt)
+        V = np.array([[3] * n, list(range(n)), list(range(n, 0, -1))], dtype=c["dtype"])
     check_point(res, c["func"], c["dtype"], lt, tuple(c["chunks"]), c["method"], c["split_every"], c["batch_blocks"], V,
                 engine=c.get("engine", "numpy"))
     return res
